@@ -91,6 +91,104 @@ def rule_lse(ctx):
     return res.finish(2)
 
 
+def value_paths(fn):
+    """(tail expression, enclosing guards) of every value a function can produce: the tails of its body, of its `return`s
+    and of the element closures it maps over arrays with"""
+    from .layout import with_parents
+    out = []
+
+    def tails(e, guards):
+        e = strip(e)
+        kk = e.get("k")
+        if kk == "Block":
+            if e.get("e") is not None:
+                tails(e["e"], guards)
+            return
+        if kk == "If":
+            tails(e["then"], guards + [(e["c"], True)])
+            if e.get("else") is not None:
+                tails(e["else"], guards + [(e["c"], False)])
+            return
+        if kk == "Match" and e.get("src", "Normal") == "Normal":
+            for a in e["arms"]:
+                tails(a["body"], guards)
+            return
+        out.append((e, guards))
+    tails(fn["body"], [])
+    for n, anc in with_parents(fn["body"]):
+        if n.get("k") == "Ret" and n.get("e") is not None:
+            g = []
+            for j, a in enumerate(anc):
+                if a.get("k") == "If":
+                    nxt = anc[j + 1] if j + 1 < len(anc) else n
+                    g.append((a["c"], nxt is a["then"] or strip(a["then"]) is nxt))
+            tails(n["e"], g)
+        if n.get("k") == "Closure" and anc and anc[-1].get("k") == "MethodCall" and anc[-1]["name"] in ("mapv", "map", "map_collect", "mapv_into", "par_map_collect", "mapv_inplace", "map_inplace"):
+            tails(n["body"], [])
+    return out
+
+
+def rule_derivpaths(ctx):
+    """The GLM gradient multiplies deviance'(y, mu) into the chain rule.  Whatever the target, the derivative of the unit
+    deviance with respect to the mean depends on the mean (it is -2 (y - mu) / v(mu)): a path of
+    unit_deviance_derivative that returns a value computed without the predicted mean - a constant for y == 0, say - is
+    the derivative of some other function for every power but one, and the optimiser then solves for the root of a
+    gradient that is not the cost's."""
+    res = RuleResult("R-C12-derivpaths", "every value path of TweedieDistribution::unit_deviance_derivative is computed from the predicted mean")
+    F = ctx.facts()
+    fns = [f for f in F.all_fns() if f["d"]["krate"] == "linfa_linear" and f["d"]["name"] == "unit_deviance_derivative"]
+    if not fns:
+        res.missing_anchor("TweedieDistribution::unit_deviance_derivative")
+    for fn in fns:
+        key = fn_key(fn)
+        ps = [b for p_ in fn["params"] for b in pat_bindings(p_) if b["name"] != "self"]
+        if len(ps) < 2:
+            res.instance(key)
+            res.undecided("%s : parameters" % key, "expected (y, ypred) parameters", fn_loc(fn))
+            continue
+        mean = "param:" + ps[1]["name"]
+        paths = value_paths(fn)
+        res.instance("%s : %d value paths" % (key, len(paths)))
+        bad = None
+        for e, guards in paths:
+            ing = ingredients(fn, e)
+            if mean not in ing and not any(x.startswith("?") for x in ing):
+                bad = (e, ing)
+                break
+        if bad:
+            res.violate("%s : path-ignores-mean" % key, "a value path of the deviance derivative (`%s`) is computed without the predicted mean `%s`: on that path it is not the derivative of the unit deviance with respect to the mean" % (Render(fn["crate"]).e(bad[0])[:50], ps[1]["name"]), fn_loc(fn, bad[0].get("ln")))
+        elif not paths:
+            res.undecided("%s : no-value-path" % key, "no value path found", fn_loc(fn))
+        else:
+            res.ok()
+    return res.finish(1)
+
+
+def rule_stop(ctx):
+    """'fit returns a point whose gradient is within the tolerance, or reports that it did not converge': the only
+    stopping criteria the logistic solver is configured with are the gradient tolerance and the iteration budget.  A cost
+    tolerance makes the solver return, as converged, a point whose gradient is far above the tolerance on badly scaled data."""
+    res = RuleResult("R-C12-stop", "the L-BFGS solver of linfa-logistic is configured with the gradient tolerance only (no additional cost-change stopping rule)")
+    F = ctx.facts()
+    fns = [f for f in F.all_fns() if f["d"]["krate"] == "linfa_logistic" and f["d"]["name"] == "setup_solver"]
+    if not fns:
+        res.missing_anchor("LogisticRegressionValidParams::setup_solver")
+    for fn in fns:
+        c = fn["crate"]
+        key = fn_key(fn)
+        calls = [n for n in walk(fn["body"]) if n.get("k") == "MethodCall" and (c.dfn(n.get("def")) or {}).get("krate", "").startswith("argmin")]
+        names = sorted(set(n["name"] for n in calls))
+        res.instance("%s : solver configured through %s" % (key, names))
+        if "with_tolerance_grad" not in names:
+            res.undecided("%s : gradient-tolerance" % key, "the call that sets the gradient tolerance was not found", fn_loc(fn))
+        elif "with_tolerance_cost" in names:
+            n0 = [n for n in calls if n["name"] == "with_tolerance_cost"][0]
+            res.violate("%s : cost-tolerance" % key, "the solver is also given a cost tolerance: it stops, and reports success, when the cost changes by less than that between two iterations - on badly scaled features long before the gradient is within gradient_tolerance", fn_loc(fn, n0["ln"]))
+        else:
+            res.ok()
+    return res.finish(1)
+
+
 def binary_decision(res, F, fn, key):
     """The binary decision compares a probability with self.threshold.  The compared value must be computed from the
     same ingredients as the published probabilities (predict_probabilities itself, or the same score function applied
@@ -209,7 +307,14 @@ def ingredients(fn, expr, depth=0, seen=None):
                 binds.setdefault(b["local"], None)
         fn["_bind"] = binds
     binds = fn["_bind"]
+    skip = set()
     for n in walk(expr):
+        if n.get("k") == "MethodCall" and n["name"] in ("len", "nrows", "ncols", "dim", "raw_dim", "shape", "len_of", "ndim", "is_empty"):
+            for y in walk(n["recv"]):
+                skip.add(id(y))       # an extent does not depend on the values stored in the array
+    for n in walk(expr):
+        if id(n) in skip:
+            continue
         k_ = n.get("k")
         if k_ == "Field":
             b = peel_refs(n["e"])
@@ -503,4 +608,4 @@ def rule_chain(ctx):
 
 
 def rules(tier):
-    return [rule_validate, rule_lse, rule_same, rule_dispatch, rule_penalty, rule_ratio, rule_memorder, rule_chain]
+    return [rule_validate, rule_lse, rule_same, rule_dispatch, rule_penalty, rule_ratio, rule_memorder, rule_chain, rule_derivpaths, rule_stop]
